@@ -37,6 +37,8 @@ class Rec(torch.nn.Module):
 
     def forward(self, X, *args):
         self.log.append((X.detach().clone(), [a.detach().clone() for a in args]))
+        if getattr(self, "fail_at", None) is not None and len(self.log) == self.fail_at:
+            raise RuntimeError("injected: forward call %d of an intervening call fails" % self.fail_at)
         y = self.net(X)
         if self.use_arg:
             y = y + args[0].double().reshape(-1, 1) * torch.tensor([[1.0, -0.5]], dtype=torch.float64)
@@ -372,16 +374,34 @@ def run_shard(sh, tier, seed):
     others = [dict(n_shuffles=3, device="cpu", references=dinucleotide_shuffle, random_state=5, hypothetical=True),
               dict(device="cpu", references=R[:2, :S], additional_nonlinear_ops={torch.nn.ReLU: scaled_rule, torch.nn.Tanh: scaled_rule}, warning_threshold=1e9),
               dict(device="cpu", references=R[:2, :1], raw_outputs=True, batch_size=1)]
+    # ... and intervening calls that ABORT: in their second batch (batch size not a multiple of n_shuffles, so an unfinished example is
+    # pending), and through the caller's warnings-as-errors setting while a custom rule is installed
+    others += [dict(device="cpu", references=R[:2, :2], n_shuffles=2, batch_size=3, _abort="second_forward"),
+               dict(device="cpu", references=dinucleotide_shuffle, n_shuffles=3, batch_size=2, random_state=9, _abort="second_forward"),
+               dict(device="cpu", references=R[:2, :S], additional_nonlinear_ops={torch.nn.ReLU: scaled_rule, torch.nn.Tanh: scaled_rule}, _abort="warnings_as_errors")]
+    labels = ["generated refs + hypothetical", "additional_nonlinear_ops custom rule", "raw outputs, 1 reference",
+              "aborted in its second batch (tensor refs)", "aborted in its second batch (generated refs)", "custom rule aborted by warnings-as-errors"]
     for oi, kwB in enumerate(others):
-        stB, _ = call(deep_lift_shap, model, X[:2], **kwB, **argB)
-        if stB != "ok":
+        kwB = dict(kwB)
+        abort = kwB.pop("_abort", None)
+        if abort == "second_forward":
+            model.fail_at = len(model.log) + 2
+        import warnings as _w
+        with _w.catch_warnings():
+            if abort == "warnings_as_errors":
+                _w.simplefilter("error")
+            stB, _ = call(deep_lift_shap, model, X[:2], **kwB, **argB)
+        model.fail_at = None
+        if abort and stB == "ok":
+            rec.note("intervening call %d was meant to abort but completed" % oi)
+        if stB != "ok" and not abort:
             rec.note("intervening call %d raised: %s" % (oi, _))
         st2, a2 = call(deep_lift_shap, model, X, **kwA, **argA)
         rec.case(1, 1)
         rec.count("traces_validated_against_impl")
         if stA != "ok" or st2 != "ok" or not torch.equal(a1, a2):
             rec.violation("dls:result_depends_on_earlier_call", dict(fn="deep_lift_shap", model=sk, source=sh["src"], args=sh["use_arg"], seed=seed,
-                          intervening_call=["generated refs + hypothetical", "additional_nonlinear_ops custom rule", "raw outputs, 1 reference"][oi]),
+                          intervening_call=labels[oi]),
                           msg="the same call returns a different result after a differently configured call in between")
     for k_, v_ in model.state_dict().items():
         if not torch.equal(v_, sd0[k_]):
